@@ -46,4 +46,140 @@ REGISTRY = {
         "assumptions": ["spec::canon_u64 is the reference statement of the minimal two's-complement form "
                         "(self-checked by harness c11_spec_selfcheck and cross-stated in smt/canon.smt2)"],
     },
+    "C01": {
+        "level_text": "Bounded proof (Kani/CBMC) by decomposition: (a) opcode whitelist and list-termination helpers for all atoms of the "
+                      "listed lengths; (b) argument decoding parse_args for each of the 35 opcodes + 2-byte opcodes over symbolic "
+                      "argument counts, terminators, flag words and argument contents in the listed length classes, against an "
+                      "independent rule table; (c) one inductive step of the real parse_conditions (real opcode parse, pre-charge, "
+                      "dispatch and arm) per condition kind from a symbolic pre-state against the effect specification; "
+                      "(d) the real validate_conditions on small symbolic states (cross-spend assertions).",
+        "level_note": "Trusts Kani/CBMC/CaDiCaL; stubs S1,S2,(S3 where hashing occurs); hook H1 (Vec-backed sets) and H3 (state accessors). "
+                      "parse_args is stubbed in the arm harnesses (its decoding is (b)); the concretizing visitor re-stores an "
+                      "asserted-equal Condition. The loops of parse_spends/parse_conditions that sequence the verified steps, lists "
+                      "longer than the bounds and the 1024-announcement countdown are outside the claim.",
+        "quick": ["c01_", "arm_ann_", "arm_self_", "arm_msg_"],
+        "thorough": ["c01t_", "arm_"],
+        "min_quick": 60,
+        "min_thorough": 120,
+        "timeout_quick": 900,
+        "timeout_thorough": 2400,
+        "functions": [
+            "chia_consensus::opcodes::parse_opcode",
+            "chia_consensus::validation_error::{first,rest,next,check_nil,atom}",
+            "chia_consensus::conditions::parse_args (+ condition_sanitizers::{sanitize_hash,parse_amount,sanitize_announce_msg,sanitize_message_mode}, sanitize_int::sanitize_uint, messages::SpendId::parse)",
+            "chia_consensus::conditions::parse_conditions::<CV<EmptyVisitor>> (one-condition list; every arm)",
+            "chia_consensus::conditions::validate_conditions",
+        ],
+        "bounds": {
+            "opcode atoms": "all atoms of 0..4 bytes, and a pair",
+            "argument lists": "0..3 arguments (0..4 for CREATE_COIN), terminator nil or non-nil atom, flag word fully symbolic (32 bits)",
+            "hash arguments": "atoms of 31/32/33 bytes (32-byte content symbolic) or a pair",
+            "key / message arguments": "47/48/49 bytes; 0/3/1024/1025 bytes (long messages zero-filled) or a pair",
+            "integer arguments": "quick: heap-backed atom of width+1 bytes, content symbolic; thorough: also 0, width, 10 bytes and a pair",
+            "CREATE_COIN memo": "absent / atom / list whose first element is an atom of 0,1,32,33 bytes or a pair; rest nil or not",
+            "arm pre-state": "all scalar and Option fields of SpendConditions/SpendBundleConditions symbolic under the representation "
+                             "invariant of DESIGN.md s.8; sets hold 0..1 symbolic element; coin ids fixed unless the arm compares them",
+            "unwind": "4..50 with unwinding assertions",
+        },
+        "stubs": [S1, S2, S3, "H1 Vec-backed HashMap/HashSet shim", "H3 verif_view accessors",
+                  "parse_args replaced by a fixed-variant producer in arm_* harnesses",
+                  "concretizing visitor CV (asserts equality, then re-stores the same Condition)"],
+        "outside": [
+            "the while-loops of parse_spends / parse_conditions sequencing the verified steps; lists longer than the bounds",
+            "the per-spend 1024 announcement countdown (needs 1025 conditions)",
+            "MAX_SPENDS_PER_BLOCK counting (LIMIT_SPENDS)",
+            "BLS point decoding inside to_key (blst FFI; modelled under C05)",
+            "integer atoms stored inside the NodePtr are exercised through sanitize_uint in C11, not again per opcode",
+        ],
+        "assumptions": ["kh/src/arm.rs::spec_step and the per-opcode rule tables in kh/src/c01.rs are the reference statement of the "
+                        "consensus rules (written from crates/chia-consensus/README.md and the opcode comments)"],
+    },
+    "C02": {
+        "level_text": "Bounded proof (Kani/CBMC): the real process_single_spend (coin id = H(parent||puzzle hash||amount atom), double-spend "
+                      "detection, removal total, malformed attributes), the real CREATE_COIN / RESERVE_FEE arms of parse_conditions "
+                      "(duplicate outputs, addition total in 128 bits, checked fee sum) and the value check of the real "
+                      "validate_conditions, each for all values within the stated bounds.",
+        "level_note": "SHA-256 replaced by a recorder/digest model (S3): statements are about the hashed byte stream and about equality of "
+                      "ids, not about SHA-256 itself. 'reported puzzle hash = tree hash of the revealed puzzle' lives behind run_program "
+                      "and is outside. Puzzle hashes / parent ids: first and last byte symbolic, rest fixed.",
+        "quick": ["c02_", "arm_value_", "pss_"],
+        "thorough": ["psst_"],
+        "min_quick": 12,
+        "min_thorough": 30,
+        "timeout_quick": 1200,
+        "timeout_thorough": 2400,
+        "functions": [
+            "chia_consensus::conditions::process_single_spend::<CV<EmptyVisitor>> (+ compute_coin_id, sanitize_hash, parse_amount)",
+            "chia_consensus::conditions::parse_conditions (CreateCoin, ReserveFee arms)",
+            "chia_consensus::conditions::validate_conditions (MintingCoin / ReserveFeeConditionFailed head)",
+            "chia_protocol::Coin::coin_id (preimage, under C11)",
+        ],
+        "bounds": {
+            "amount atoms": "heap-backed atoms of 1,2,9 bytes (quick) and 4,5,8,10 (thorough), content symbolic; NodePtr-embedded small "
+                            "integers at the concrete boundary values 0,1,0x7f,0x80,0x7fff,0x8000,0x7fffff,0x800000,0x3ffffff",
+            "hashes": "parent id / puzzle hash: bytes 0 and 31 symbolic; malformed lengths 0,31,33",
+            "state": "bundle with 0 or 1 previously spent coin (its id = the new id xor one symbolic byte), removal/addition totals "
+                     "symbolic below 2^100, reserve fee and costs symbolic 64 bit",
+            "paths": "one harness per path (fresh / duplicate / cost exceeded / bad amount): the path condition is assumed, data symbolic",
+        },
+        "stubs": [S1, S2, S3, "H1 shim", "H3 accessors", "parse_args stub + concretizing visitor in arm_value_*"],
+        "outside": ["bundles with thousands of spends (induction over spends is argued in DESIGN.md, not unrolled)",
+                    "puzzle-hash = tree hash of revealed puzzle (run_block_generator2 / run_spendbundle, needs run_program)"],
+        "assumptions": ["collision resistance of SHA-256 is not used: id equality is what the code tests"],
+    },
+    "C03": {
+        "level_text": "Bounded proof (Kani/CBMC), inductive: each lock/birth arm of the real parse_conditions equals the fold of the "
+                      "specification (arm_lock_*); for the real check_time_locks, every summary under the invariant, every new assertion "
+                      "and every chain state at full 32/64-bit width: check(fold(S,h)) == check(S) && holds(h), and a parse-time "
+                      "'impossible' rejection implies no chain state satisfies S and h (c03_fold_*); the checker equals the conjunction "
+                      "of the per-assertion definitions with saturating sums (c03_checker_is_conjunction).",
+        "level_note": "One spend / one coin record per query (the checker treats spends independently); H1 shim for the coin-record map; "
+                      "argument decoding (negative / oversized -> tautology or failure) is part of C01's parse_args harnesses.",
+        "quick": ["c03_", "arm_lock_"],
+        "thorough": [],
+        "min_quick": 26,
+        "min_thorough": 26,
+        "timeout_quick": 900,
+        "timeout_thorough": 1800,
+        "functions": [
+            "chia_consensus::check_time_locks::check_time_locks",
+            "chia_consensus::conditions::parse_conditions (10 lock/birth arms + SkipRelativeCondition)",
+            "chia_consensus::conditions::validate_conditions (absolute impossible constraints)",
+            "chia_consensus::owned_conditions::{OwnedSpendBundleConditions::from, OwnedSpendConditions::from}",
+        ],
+        "bounds": {"values": "all ten summary fields, the new argument and the chain state (height u32, timestamp u64, coin confirmed "
+                             "index u32, coin timestamp u64) fully symbolic", "spends": "1 spend, 1 coin record",
+                   "unwind": "4..34"},
+        "stubs": [S1, S2, "H1 shim", "H3 accessors", "parse_args stub + concretizing visitor in arm_lock_*"],
+        "outside": ["legacy nowrap=false mode beyond 'differs only when a sum overflows'",
+                    "ephemeral-coin rule across two spends (under C01 validate_conditions harnesses)"],
+        "assumptions": ["kh/src/c03.rs::holds is the arithmetic definition of each assertion (saturating sums)"],
+    },
+    "C04": {
+        "level_text": "Bounded proof (Kani/CBMC) of the condition/spend cost half: the per-opcode pre-charge of the real parse_conditions "
+                      "with symbolic flags and remaining cost (fails with CostExceeded iff remaining < charge; remaining, bundle and "
+                      "per-spend condition cost move by exactly the charge), the Softfork arm, SPEND_COST in process_single_spend, the "
+                      "unknown-opcode path, the 256-entry unknown-condition cost table against an exact-rational recomputation, "
+                      "subtract_cost, and the 3-step countdown lemma (succeeds from limit L iff L >= total).",
+        "level_note": "CLVM execution cost, byte cost and interned_vbytes need run_program / intern_tree on symbolic programs and are outside "
+                      "(stated in DESIGN.md); the fixed charges are written out independently in kh/src/arm.rs::spec_precharge.",
+        "quick": ["c04_", "arm_cost_", "pss_costfail", "pss_fresh_l9"],
+        "thorough": ["arm_value_", "arm_ann_", "psst_costfail"],
+        "min_quick": 13,
+        "min_thorough": 20,
+        "timeout_quick": 900,
+        "timeout_thorough": 1800,
+        "functions": [
+            "chia_consensus::opcodes::compute_unknown_condition_cost",
+            "chia_consensus::conditions::parse_conditions (pre-charge match, Softfork arm, unknown-opcode path)",
+            "chia_consensus::conditions::process_single_spend (SPEND_COST)",
+            "chia_consensus::run_block_generator::subtract_cost",
+        ],
+        "bounds": {"opcode": "all u16 for the table; pre-charge per opcode class through the arm harnesses", "cost": "u64 symbolic",
+                   "flags": "32-bit word symbolic"},
+        "stubs": [S1, S2, S3, "H1 shim", "H3 accessors", "parse_args stub + concretizing visitor"],
+        "outside": ["CLVM execution cost, byte cost, INTERNED_GENERATOR vbytes (need run_program / intern_tree)",
+                    "total over a whole block = sum of the verified per-condition charges (composition lemma, checked for 3 steps)"],
+        "assumptions": ["gen/cost_table.py (exact rational 100*(17/16)^i truncated to 3 significant digits) is the cost table"],
+    },
 }
